@@ -145,22 +145,6 @@ mod proofs {
         );
     }
 
-    #[kani::proof]
-    #[kani::stub(alloc::alloc::dealloc_nonnull, noop_dealloc)]
-    #[kani::unwind(8)]
-    pub fn c01_dbg() {
-        let l = reg::Lock::new(Canary(0));
-        vshim::set_mode_lr(2, 3, 0);
-        unsafe {
-            G::is_writer[0] = true;
-        }
-        vshim::thread_start(0);
-        store(&l, 1, None);
-        let a = reader(&l, 1);
-        final_checks(1, 2);
-        verdict();
-        core::mem::forget(l);
-    }
 
     /// 1 writer thread x 2 stores, 2 reader threads, K = 3.
     #[kani::proof]
